@@ -47,14 +47,14 @@ type Want struct {
 // Case: a behaviour. Acts[i] is performed, then - if Reads[i] is not null - every read is
 // compared with Reads[i].
 type Case struct {
-	ID         int       `json:"id"`
-	Acts       []Act     `json:"acts"`
-	Reads      []*Want   `json:"reads"`
-	Ilh        []int     `json:"ilh"` // spec's transcription of the height LastSuffrageProofBytes returns
-	Len        []int     `json:"len"` // chain length after the step
-	Tf         []int     `json:"tf"`
-	PermCache  int       `json:"permcache"`
-	WriteCache int       `json:"writecache"`
+	ID         int     `json:"id"`
+	Acts       []Act   `json:"acts"`
+	Reads      []*Want `json:"reads"`
+	Ilh        []int   `json:"ilh"` // spec's transcription of the height LastSuffrageProofBytes returns
+	Len        []int   `json:"len"` // chain length after the step
+	Tf         []int   `json:"tf"`
+	PermCache  int     `json:"permcache"`
+	WriteCache int     `json:"writecache"`
 }
 
 type Diff struct {
@@ -69,15 +69,15 @@ type Diff struct {
 }
 
 type Result struct {
-	ID     int      `json:"id"`
-	OK     bool     `json:"ok"`
-	Diffs  []Diff   `json:"diffs,omitempty"`
-	Info   []Diff   `json:"info,omitempty"` // not constrained by the statement (reported only)
-	Errs   []string `json:"errs,omitempty"`
-	Panic  string   `json:"panic,omitempty"`
-	Steps  int      `json:"steps"`
-	Reads  int      `json:"reads"`
-	Fatal  string   `json:"fatal,omitempty"` // the driver could not go on (machinery, unless Diffs explain it)
+	ID    int      `json:"id"`
+	OK    bool     `json:"ok"`
+	Diffs []Diff   `json:"diffs,omitempty"`
+	Info  []Diff   `json:"info,omitempty"` // not constrained by the statement (reported only)
+	Errs  []string `json:"errs,omitempty"`
+	Panic string   `json:"panic,omitempty"`
+	Steps int      `json:"steps"`
+	Reads int      `json:"reads"`
+	Fatal string   `json:"fatal,omitempty"` // the driver could not go on (machinery, unless Diffs explain it)
 }
 
 func refStr(r []int) string {
